@@ -48,8 +48,13 @@ def _source_hash():
     return h.hexdigest()[:16]
 
 
-def setup_env():
+def setup_env(tier=None):
     """Must run before torch / numba / tangermeme are imported."""
+    if tier is None:
+        tier = os.environ.get("VERIF_TIER_EFFECTIVE", "quick")
+    os.environ["VERIF_TIER_EFFECTIVE"] = tier
+    # several worker processes each own a numba thread pool: keep the pools small in the quick tier
+    os.environ.setdefault("NUMBA_NUM_THREADS", "4" if tier == "quick" else "16")
     if os.environ.get("PYTHONHASHSEED") != "0":
         os.environ["PYTHONHASHSEED"] = "0"
         os.execv(sys.executable, [sys.executable] + sys.argv)
@@ -254,7 +259,7 @@ def _record_failure(stats, sub, case, res):
 def run_unit(module_name, sub_name, tier, seed, shard, n_shards):
     """Executed in a worker.  Returns a picklable stats dict."""
     import importlib
-    setup_env()
+    setup_env(tier)
     assert_repo_import()
     mod = importlib.import_module(module_name)
     sub = {s.name: s for s in mod.subchecks(tier)}[sub_name]
